@@ -452,10 +452,17 @@ func (c *Conn) sleep(d time.Duration) bool {
 	defer t.Stop()
 	select {
 	case <-t.C:
-		return true
+		// a connection that was closed meanwhile is freed with whatever it had buffered, like in Redis
+		return !c.isDead()
 	case <-c.S.W.stop:
 		return false
 	}
+}
+
+func (c *Conn) isDead() bool {
+	c.mu.Lock()
+	defer c.mu.Unlock()
+	return c.dead
 }
 
 func (c *Conn) readLoop() {
@@ -472,6 +479,9 @@ func (c *Conn) readLoop() {
 		if err != nil {
 			c.kill("peer closed: " + err.Error())
 			return
+		}
+		if c.isDead() {
+			return // killed while commands were still buffered: they are discarded
 		}
 		req := c.nreq
 		c.nreq++
